@@ -440,7 +440,7 @@ Theorem writer_agrees ver m sigs f :
   seal ver m (puts hash sigs) = Ok f ->
   forall s, wf_sig s -> file_has hash ver f s = Ok (writer_has hash (puts hash sigs) s).
 Proof.
-  intros Hwf Hsm Hms Hseal s Hs. apply sealed_file_has; auto.
+  intros Hwf Hsm Hms Hseal s Hs. apply (sealed_file_has ver m); auto.
   - now apply puts_ok.
   - now apply prefix_lt.
 Qed.
